@@ -39,11 +39,10 @@ ENC = ("PartitionConfirmationState::{new,update_confirmation}", "AtomicWatermark
 def native_replay(rp, workroot):
     from engine.core import replay_bin
     descs = " ".join(f["description"] for f in rp["failed_checks"])
-    if "stops short" in descs:
-        return replay_bin("c08", ["stale"], crate="replay-cluster")
     if "add with overflow" in descs:
         return replay_bin("c08", ["attempts"], crate="replay-cluster")
     if rp["harness"].startswith("c08_history") or rp["harness"] == "c08_inductive_step":
+        # bounded native search over the real type with the harness's own oracle (every history of <= 4 reports)
         return replay_bin("c08", ["search"], crate="replay-cluster")
     return None, "no native reproducer for this obligation"
 
